@@ -38,10 +38,13 @@ var (
 func vxLMountEntry(r *routing.Router, ctx context.Context, path string) *routing.MountEntry {
 	return &routing.MountEntry{Type: "userpass", Path: "userpass/"}
 }
-func vxLSystemView(r *routing.Router, ctx context.Context, path string) logical.SystemView { return vxSys }
+func vxLSystemView(r *routing.Router, ctx context.Context, path string) logical.SystemView {
+	return vxSys
+}
 func vxLFetchEntity(c *Core, ctx context.Context, ns *namespace.Namespace, entityID string, skip bool) (*identity.Entity, map[string][]string, error) {
 	return nil, map[string][]string{ns.ID: vxIdentityPolicies}, nil
 }
+
 var (
 	vxLeaseTTL   time.Duration
 	vxLeaseCalls int
